@@ -65,6 +65,12 @@ func (cs c03Case) build(e *Engine, fresh *uint64) Tx {
 	} else {
 		m.Sender = Structured32(byte(0x30 + v))
 		m.Recipient = Structured32(byte(0x60 + v))
+		if v%4 == 3 {
+			m.Recipient = NearModuleRecipient(byte(1 + v))
+			if v%8 == 7 {
+				m.Sender = Messenger(m.Src, 0)
+			}
+		}
 		n := cs.bodyLen
 		if n == 0 {
 			n = []int{0, 5, 132, 300}[v%4]
